@@ -22,7 +22,11 @@ STYLE_PROPS = ["color", "width", "background", "--custom"]
 RULE = ("cases drawn from one PRNG (VERIF_SEED). view: a random tree (depth <= 3) of div/span/section/input/br/img/"
         "textarea/title/script/style built with the tachys builder API, with generated strings as String children, "
         "char children, integer children, unit placeholders, string / boolean / typed-id attributes, class strings, "
-        "class toggles, style strings and style properties, rendered by RenderHtml::to_html(); document: <Title>, "
+        "class toggles, style strings and style properties — each string carried by String or by any other Rust type that "
+        "implements the position's trait (&str, &String, Arc<str>, Cow, Oco, Option<..>, closures returning these, "
+        "ArcRwSignal, ArcMemo; style property keys as String / &str / Arc<str>) — rendered by RenderHtml::to_html(); "
+        "stream: the same views with Suspend-wrapped children, streamed in order / out of order under oneshot-controlled "
+        "schedules; document: <Title>, "
         "<Meta name content>, <Link href>, <Html attr:lang>, <Body attr:class> of leptos_meta plus a body view, "
         "rendered under a real ServerMetaContext and passed through the real inject_meta_context over a fixed shell; "
         "static: thirteen fixed view! invocations whose hostile strings are literals (top-level builder path and nested, "
@@ -92,6 +96,16 @@ def s_of(v):
 
 
 # ----------------------------------------------------------------------------- generator
+# how many Rust types the harness can carry a string in, per position (harness/ssr/src/c06.rs)
+N_ATTR_TYPES, N_CLASS_TYPES, N_STYLE_TYPES, N_PROP_TYPES, N_PROP_KEY_TYPES, N_TEXT_TYPES = 12, 11, 10, 9, 3, 9
+N_BOOL_TYPES, N_TOGGLE_TYPES = 2, 3
+
+
+def ty(rng, n):
+    """String half of the time, else any of the other types that implement the trait"""
+    return 0 if rng.random() < 0.5 else rng.randrange(n)
+
+
 def gen_attrs(rng, tag):
     out = []
     names = list(ATTR_NAMES)
@@ -102,27 +116,27 @@ def gen_attrs(rng, tag):
     for _ in range(rng.choice([0, 0, 1, 1, 2, 3, 4])):
         r = rng.random()
         if r < 0.40 and names:
-            out.append([0, b(names.pop()), b(text(rng))])
+            out.append([0, b(names.pop()), b(text(rng)), ty(rng, N_ATTR_TYPES)])
         elif r < 0.48 and bools:
-            out.append([1, b(bools.pop()), rng.randint(0, 1)])
+            out.append([1, b(bools.pop()), rng.randint(0, 1), ty(rng, N_BOOL_TYPES)])
         elif r < 0.62:
-            out.append([2, b(text(rng))])
+            out.append([2, b(text(rng)), ty(rng, N_CLASS_TYPES)])
         elif r < 0.70:
-            out.append([3, b(text(rng, 3)), rng.randint(0, 1)])
+            out.append([3, b(text(rng, 3)), rng.randint(0, 1), ty(rng, N_TOGGLE_TYPES)])
         elif r < 0.82:
-            out.append([4, b(text(rng))])
+            out.append([4, b(text(rng)), ty(rng, N_STYLE_TYPES)])
         elif r < 0.92:
-            out.append([5, b(rng.choice(STYLE_PROPS)), b(text(rng))])
+            out.append([5, b(rng.choice(STYLE_PROPS)), b(text(rng)), ty(rng, N_PROP_TYPES), ty(rng, N_PROP_KEY_TYPES)])
         elif not have_id:
             have_id = True
-            out.append([6, b(text(rng))])
+            out.append([6, b(text(rng)), ty(rng, N_ATTR_TYPES)])
     return out
 
 
 def gen_leaf(rng):
     r = rng.random()
     if r < 0.70:
-        return [0, b(text(rng))]
+        return [0, b(text(rng)), ty(rng, N_TEXT_TYPES)]
     if r < 0.82:
         c = rng.choice(["<", ">", "&", '"', "'", "\0", "a", "\u00e9", "\U0001F600", "\r", " ", "/"])
         return [1, ord(c)]
@@ -141,10 +155,10 @@ def gen_view(rng, depth=0, tags=None):
         pass
     elif tag == 7:
         if rng.random() < 0.8:
-            kids = [[0, b(text(rng))]]
+            kids = [[0, b(text(rng)), ty(rng, N_TEXT_TYPES)]]
     elif tag in RCDATA or tag in RAW:
         for _ in range(rng.choice([0, 1, 1, 1, 2, 3])):
-            kids.append(rng.choice([[0, b(text(rng))], [0, b(text(rng))], gen_leaf(rng)]))
+            kids.append(rng.choice([[0, b(text(rng)), ty(rng, N_TEXT_TYPES)], [0, b(text(rng)), ty(rng, N_TEXT_TYPES)], gen_leaf(rng)]))
         kids = [k for k in kids if k[0] != 4]
         if tag == 6:
             first = "".join(leaf_text(k) for k in kids)
@@ -628,7 +642,7 @@ def valid_view(v, in_text_only=False):
         return len(v) == 3 and isinstance(v[1], int) and 0 <= v[1] < 16 and valid_view(v[2])
     if k == 0:
         bytes(v[1]).decode("utf-8")
-        return len(v) == 2
+        return len(v) == 2 or (len(v) == 3 and isinstance(v[2], int) and 0 <= v[2] < N_TEXT_TYPES)
     if k == 1:
         return len(v) == 2 and (0 <= v[1] < 0xD800 or 0xE000 <= v[1] <= 0x10FFFF)
     if k == 3:
@@ -638,7 +652,15 @@ def valid_view(v, in_text_only=False):
     if k != 2 or len(v) != 4 or not (0 <= v[1] < len(TAGS)):
         return False
     names = []
+    limits = {0: (3, [N_ATTR_TYPES]), 1: (3, [N_BOOL_TYPES]), 2: (2, [N_CLASS_TYPES]), 3: (3, [N_TOGGLE_TYPES]),
+              4: (2, [N_STYLE_TYPES]), 5: (3, [N_PROP_TYPES, N_PROP_KEY_TYPES]), 6: (2, [N_ATTR_TYPES])}
     for a in v[2]:
+        if a[0] not in limits:
+            return False
+        base, lims = limits[a[0]]
+        extra = a[base:]
+        if len(a) < base or len(extra) > len(lims) or any(not isinstance(x, int) or not 0 <= x < l for x, l in zip(extra, lims)):
+            return False
         if a[0] in (0, 1):
             n = s_of(a[1])
             if n in names or n in ("class", "style", "id") or not n or any(c in n for c in " \t\n\r\f\"'>/=<&\0") or n != n.lower():
